@@ -85,7 +85,9 @@ fn c01(seed: u64, cases: usize, model_path: &str, thorough: bool) -> serde_json:
         let tmp: Vec<bool> = (0..n).map(|_| r.bool()).collect();
         let args: Vec<PartyArgs> = (0..n).map(|p| PartyArgs { inputs: inputs[p].clone(), p_eval, p_own: p, p_out: p_out.clone(), tmp_dir: if tmp[p] { Some(dir.path().to_path_buf()) } else { None } }).collect();
         let cfg = RunCfg { cap: [1usize, 2, 1024][r.below(3) as usize], sched: match r.below(3) { 0 => Sched::RoundRobin, 1 => Sched::Random(r.next()), _ => Sched::Starve(r.below(n as u64) as usize) }, keep_payloads: false };
-        let run = exec::run(&c, &args, &cfg, None); execs += 1;
+        // every third case: sends take two polls, so that sends a party issues concurrently to ONE peer are outstanding together (and show up in `max_outstanding`)
+        let slow = case % 3 == 2; exec::set_slow_sends(slow);
+        let run = exec::run(&c, &args, &cfg, None); execs += 1; exec::set_slow_sends(false); *dist.entry(format!("slow_sends:{slow}")).or_default() += 1;
         let oracle = c.eval(&inputs);                                   // garble_lang's own clear-text evaluator: independent of the model
         assert_eq!(m.ask(&circ::to_line(&c)), "ok");
         let wf = m.ask("wf");
